@@ -1,8 +1,161 @@
 import TRV.Oracle.Util
-/-! Oracle operations: Result (stub, filled in by the module that owns it). -/
-namespace TRV.Oracle.Result
-open TRV.Oracle
+import TRV.Spec.Result
+/-!
+Oracle operations: Result (C16, C17).
 
-def handlers : List (String × Handler) := []
+Grammar (space separated tokens; rationals are `num/den` or `num`; names are opaque tokens, the Go
+side sends them hex-encoded; `-` = empty):
+
+    hop  := ttl:ip:rtt:reach:isdest:names:port:icmptype:icmpcode       names := - | n1,n2,…
+    run  := destip destnames nH hop*
+    runs := nR run*
+    doc  := hcAvg hcMin hcMax  sent recv loss jitter avg min max  nS sample*  runs
+
+* `res.norm doc`             → `hc avg min max e2e sent recv loss jitter avg min max reach r… `
+                               (model of `Normalize`; one `r<bits>` token per run)
+* `res.spec.consistent doc`  → `ok` or the comma-separated names of the failing `Consistent` clauses
+                               (the document is the implementation's own output)
+* `res.isprivate ip`         → `<model isPrivate> <spec PrivateRange>`
+* `res.redact runs`          → `runs` (model of `RemovePrivateHops`)
+* `res.spec.redacted runs ; runs` → `1`/`0` (`RedactedRuns input output`)
+* `res.pipeline rdns skip nT (ip names)* doc` → `runs` after enrich → normalize → redact, the
+                               resolver given as a table (addresses not in the table fail to resolve)
+-/
+namespace TRV.Oracle.Result
+open TRV TRV.Oracle TRV.Result TRV.ResSpec
+
+abbrev P := StateT (List String) Option
+
+def tok : P String := fun
+  | [] => none
+  | t :: ts => some (t, ts)
+
+def parseRat (s : String) : Option Rat :=
+  match splitOn s '/' with
+  | [n] => (parseInt n).map fun (i : Int) => (i : Rat)
+  | [n, d] => do
+    let n ← parseInt n
+    let d ← d.toNat?
+    if d = 0 then none else pure (mkRat n d)
+  | _ => none
+
+def showRat (q : Rat) : String := s!"{q.num}/{q.den}"
+
+def lift {α} (o : Option α) : P α := fun ts => o.map fun a => (a, ts)
+
+def pNat : P Nat := do let t ← tok; lift t.toNat?
+def pRat : P Rat := do let t ← tok; lift (parseRat t)
+def pHex : P Bytes := do let t ← tok; lift (parseHex t)
+
+def parseNames (s : String) : Option (List String) :=
+  if s = "-" then some [] else
+  let parts := splitOn s ','
+  if parts.any (· = "") then none else some parts
+
+def showNames (ns : List String) : String := if ns.isEmpty then "-" else ",".intercalate ns
+
+def parseHop (s : String) : Option Hop :=
+  match splitOn s ':' with
+  | [ttl, ip, rtt, reach, dest, names, port, it, ic] => do
+    let ttl ← parseInt ttl
+    let ip ← parseHex ip
+    let rtt ← parseRat rtt
+    let reach ← parseBool reach
+    let dest ← parseBool dest
+    let names ← parseNames names
+    let port ← port.toNat?
+    let it ← it.toNat?
+    let ic ← ic.toNat?
+    pure { ttl := ttl, ip := ip, rtt := rtt, reachable := reach, isDest := dest, names := names,
+           port := port, icmpType := it, icmpCode := ic }
+  | _ => none
+
+def showHop (h : Hop) : String :=
+  s!"{h.ttl}:{toHex h.ip}:{showRat h.rtt}:{showBool h.reachable}:{showBool h.isDest}:{showNames h.names}:{h.port}:{h.icmpType}:{h.icmpCode}"
+
+def pMany {α} (p : P α) : Nat → P (List α)
+  | 0 => pure []
+  | n + 1 => do let a ← p; let as ← pMany p n; pure (a :: as)
+
+def pRun : P Run := do
+  let dip ← pHex
+  let dn ← tok
+  let dn ← lift (parseNames dn)
+  let n ← pNat
+  let hops ← pMany (do let t ← tok; lift (parseHop t)) n
+  pure { hops := hops, destIp := dip, destNames := dn }
+
+def pRuns : P (List Run) := do let n ← pNat; pMany pRun n
+
+def showRun (r : Run) : String :=
+  " ".intercalate ([toHex r.destIp, showNames r.destNames, toString r.hops.length] ++ r.hops.map showHop)
+
+def showRuns (rs : List Run) : String := " ".intercalate (toString rs.length :: rs.map showRun)
+
+def pDoc : P Doc := do
+  let hcAvg ← pRat; let hcMin ← pNat; let hcMax ← pNat
+  let sent ← pNat; let recv ← pNat; let loss ← pRat; let jit ← pRat
+  let avg ← pRat; let mn ← pRat; let mx ← pRat
+  let nS ← pNat
+  let samples ← pMany pRat nS
+  let runs ← pRuns
+  pure { runs := runs, hopCount := { avg := hcAvg, min := hcMin, max := hcMax },
+         e2e := { rtts := samples, sent := sent, received := recv, loss := loss, jitter := jit,
+                  avg := avg, min := mn, max := mx } }
+
+/-- run a parser over the whole token list; trailing tokens are an error -/
+def whole {α} (p : P α) (ts : List String) : Option α :=
+  match p ts with
+  | some (a, []) => some a
+  | _ => none
+
+def showStats (d : Doc) : String :=
+  let reach := d.runs.map fun r => "r" ++ String.join (r.hops.map fun h => showBool h.reachable)
+  " ".intercalate (["hc", showRat d.hopCount.avg, toString d.hopCount.min, toString d.hopCount.max,
+    "e2e", toString d.e2e.sent, toString d.e2e.received, showRat d.e2e.loss, showRat d.e2e.jitter,
+    showRat d.e2e.avg, showRat d.e2e.min, showRat d.e2e.max, "reach"] ++ reach)
+
+def norm : Handler := fun ts => orBad do
+  let d ← whole pDoc ts
+  pure (showStats (normalize [] d))
+
+def specConsistent : Handler := fun ts => orBad do
+  let d ← whole pDoc ts
+  let bad := (consistentClauses d).filter (fun c => !c.2) |>.map (·.1)
+  pure (if bad.isEmpty then "ok" else ",".intercalate bad)
+
+def isprivate : Handler
+  | [ip] => orBad do
+    let ip ← parseHex ip
+    pure s!"{showBool (isPrivate ip)} {showBool (decide (PrivateRange ip))}"
+  | _ => badOp
+
+def redact : Handler := fun ts => orBad do
+  let rs ← whole pRuns ts
+  pure (showRuns (removePrivate { runs := rs }).runs)
+
+def specRedacted : Handler := fun ts => orBad do
+  let (a, b) := ts.span (· != ";")
+  let i ← whole pRuns a
+  let o ← whole pRuns (b.drop 1)
+  pure (showBool (decide (RedactedRuns i o)))
+
+def pTable : P (List (Bytes × List String)) := do
+  let n ← pNat
+  pMany (do let ip ← pHex; let ns ← tok; let ns ← lift (parseNames ns); pure (ip, ns)) n
+
+def pipelineOp : Handler
+  | rdns :: skip :: rest => orBad do
+    let rdns ← parseBool rdns
+    let skip ← parseBool skip
+    let (tbl, d) ← whole (do let t ← pTable; let d ← pDoc; pure (t, d)) rest
+    let res : Resolver := fun ip => tbl.lookup ip
+    let o := pipeline rdns skip res [] d
+    pure (showRuns o.runs ++ " | " ++ showStats o)
+  | _ => badOp
+
+def handlers : List (String × Handler) :=
+  [("res.norm", norm), ("res.spec.consistent", specConsistent), ("res.isprivate", isprivate),
+   ("res.redact", redact), ("res.spec.redacted", specRedacted), ("res.pipeline", pipelineOp)]
 
 end TRV.Oracle.Result
